@@ -7,11 +7,11 @@ git checkout -q -- src macros
 git apply _out/patch.diff || { echo "patch does not apply"; exit 2; }
 cp -f _out/$DEMO.rs tests/$DEMO.rs 2>/dev/null
 echo "== with change: full suite (excluding demo)"
-cargo test --workspace --no-fail-fast --offline 2>&1 | grep -E "^test result|Running|FAILED|failed" | grep -v "^test result: ok" | head -20
+cargo test --workspace --no-fail-fast --offline $EXTRA 2>&1 | grep -E "^test result|Running|FAILED|failed" | grep -v "^test result: ok" | head -20
 echo "== with change: demo"
-cargo test --offline --test $DEMO 2>&1 | grep -E "^test result|panicked|FAILED" | head -5
+cargo test --offline $EXTRA --test $DEMO 2>&1 | grep -E "^test result|panicked|FAILED" | head -5
 git checkout -q -- src macros
 echo "== without change: demo"
-cargo test --offline --test $DEMO 2>&1 | grep -E "^test result|panicked|FAILED" | head -5
+cargo test --offline $EXTRA --test $DEMO 2>&1 | grep -E "^test result|panicked|FAILED" | head -5
 git apply _out/patch.diff
 echo "== re-applied"
